@@ -76,11 +76,42 @@ def opBuf (j : Json) : Except String Json := do
     | _ => throw s!"bad buf op {k}"
   return Json.mkObj [("outs", Json.arr outs), ("buffer", J.natsToJson b.buffer), ("bitaddr", b.bitaddr)]
 
+def xvalToJson : XVal → Json
+  | .int i => Json.num ⟨i, 0⟩
+  | .flt s => Json.mkObj [("f", s)]
+  | .str s => Json.str s
+  | .arr l => Json.arr (l.map xvalToJson).toArray
+
+def leafToJson (l : Leaf) : Json :=
+  Json.mkObj [("name", l.name), ("field", l.field), ("start", l.start), ("len", l.len),
+    ("endian", l.endian), ("unit", match l.unit with | some u => Json.str u | none => Json.null),
+    ("opts", Json.arr (l.opts.map fun (k, v) => Json.arr #[Json.str k, xvalToJson v]).toArray)]
+
+/-- layout: `generate()` for a list of impl indices (a call history on one encoder) -/
+def opLayout (j : Json) : Except String Json := do
+  let S ← J.schema (← j.getObjVal? "schema")
+  let unroll ← j.getObjValAs? Bool "unroll"
+  let calls ← j.getObjValAs? (Array Nat) "calls"
+  let fuel := getFuel j
+  let mut e : Encoder := {}
+  let mut outs : Array Json := #[]
+  for ix in calls do
+    match S.impls[ix]? with
+    | none => throw "bad impl index"
+    | some impl =>
+      let (e', r) := e.generate S unroll fuel impl
+      e := e'
+      outs := outs.push (match r with
+        | some ls => Json.mkObj [("leaves", Json.arr (ls.map leafToJson).toArray)]
+        | none => Json.mkObj [("err", "raise")])
+  return Json.mkObj [("calls", Json.arr outs)]
+
 def dispatch (j : Json) : Except String Json := do
   let op ← j.getObjValAs? String "op"
   match op with
   | "codec" => opCodec j
   | "buf" => opBuf j
+  | "layout" => opLayout j
   | _ => throw s!"unknown op {op}"
 
 partial def loop (hin : IO.FS.Stream) (hout : IO.FS.Stream) : IO Unit := do
